@@ -176,3 +176,32 @@ def m_stream_ctrl(s, av):
         else: terms.append(z3.If(z3.Or(z3.And(z3.ULT(b, 0x20), b != 10), b == 0x7f), z3.BitVecVal(1, 32), z3.BitVecVal(0, 32)))
     if not terms: return n
     return z3.simplify(z3.BitVecVal(n, 32) + sum(terms[1:], terms[0]))
+
+@model('vp_stream_find')
+def m_stream_find(s, av):
+    """does the output contain the (concrete) C string?  one term instead of a byte-by-byte loop in the harness"""
+    os_ = s.concretize(av[0], 'address'); p = s.concretize(av[1], 'address'); needle = []
+    while True:
+        c = s.load(p + len(needle), 1)
+        if not is_c(c): raise BoundExceeded('vp_stream_find with a symbolic needle')
+        if c == 0: break
+        needle.append(c)
+        if len(needle) > 256: raise BoundExceeded('vp_stream_find needle too long')
+    its = _items(s, os_)
+    if any(it[0] != 'b' for it in its): raise BoundExceeded('vp_stream_find on a stream holding a symbolic number')
+    bs = [it[2] for it in its]; m = len(needle); alts = []
+    for i in range(0, len(bs) - m + 1):
+        conds = []; ok = True
+        for k in range(m):
+            b = bs[i + k]
+            if is_c(b):
+                if b != needle[k]: ok = False; break
+            else: conds.append(b == needle[k])
+        if not ok: continue
+        if not conds: return 1
+        alts.append(z3.And(*conds) if len(conds) > 1 else conds[0])
+    if not alts: return 0
+    c = z3.simplify(z3.Or(*alts) if len(alts) > 1 else alts[0])
+    if z3.is_true(c): return 1
+    if z3.is_false(c): return 0
+    return z3.If(c, z3.BitVecVal(1, 32), z3.BitVecVal(0, 32))
